@@ -63,6 +63,7 @@ def tables(extra_strings=()):
         "numf": numf,
         "normf": normf,
         "fcanon": fcanon,
+        "hexpfx": {s: (s if s[:2] in ("0x", "0X") else "0x" + s) for s in num16},
     }
 
 
